@@ -574,7 +574,10 @@ class EventsProcessor:
         try:
             proc = self.processors[event.__class__]
         except KeyError:
-            raise NotImplementedError(event)
+            # events we have no use for (unknown/extension frames, ALTSVC,
+            # informational responses, ...) must be tolerated, not raised
+            # out of the connection's input path
+            log.debug('Ignoring event: %r', event)
         except AttributeError:
             pass  # connection was closed and self.processors was deleted
         else:
